@@ -1026,7 +1026,7 @@ Section DeliverRel.
   Qed.
 
   (* 4, lifted: a replica that collects contents before delivery is observationally the replica that does not *)
-  Theorem gc_replica_equals_nogc_replica_gen : forall d w,
+  Theorem gc_replica_equals_nogc_replica : forall d w,
     Safe d -> (forall x, In x w -> okx x) ->
     vis_eq (fst (deliver (gc_contents keep d) w)) (fst (deliver d w)) /\
     snd (deliver (gc_contents keep d) w) = snd (deliver d w).
@@ -1041,10 +1041,10 @@ Section DeliverRel.
     vis_eq (gc_contents keep (fst (deliver d w))) (fst (deliver (gc_contents keep d) w)).
   Proof.
     intros d w Hs Hok. eapply vis_eq_trans; [apply gc_contents_vis_eq|].
-    apply vis_eq_sym. apply (gc_replica_equals_nogc_replica_gen d w Hs Hok).
+    apply vis_eq_sym. apply (gc_replica_equals_nogc_replica d w Hs Hok).
   Qed.
 End DeliverRel.
-Print Assumptions gc_replica_equals_nogc_replica_gen.
+Print Assumptions gc_replica_equals_nogc_replica.
 
 (* ---------- instance: documents without nested types ---------- *)
 Definition flat_key (k : seqkey) : Prop := match fst k with PId _ => False | _ => True end.
@@ -1115,9 +1115,348 @@ Theorem gc_replica_equals_nogc_replica_flat : forall keep d w,
   snd (deliver (gc_contents keep d) w) = snd (deliver d w).
 Proof.
   intros keep d w Hd Hw.
-  apply (gc_replica_equals_nogc_replica_gen keep flat_doc flat_xop); [| |exact Hd|exact Hw].
+  apply (gc_replica_equals_nogc_replica keep flat_doc flat_xop); [| |exact Hd|exact Hw].
   - intros d0 [o|i] H0 Hx _; cbn [integrate_x]; [apply integrate_op_flat; assumption|exact H0].
   - intros d0 [o|i] H0 Hx; cbn [gc_safe]; [|exact I].
     intros key Hr. apply flat_key_not_dead. eapply resolve_parent_flat; eassumption.
 Qed.
 Print Assumptions gc_replica_equals_nogc_replica_flat.
+
+(* ====================================================================== *)
+(* 9. the invariant [subtree_dead] holds in every reachable state          *)
+(* ====================================================================== *)
+
+(* everything below a deleted type is deleted, except possibly the items whose id satisfies [J] *)
+Definition sd_except (J : id -> Prop) (d : doc) : Prop :=
+  forall k l, In (k, l) (d_lists d) -> dead_parent (fun _ => false) d k = true ->
+  forall x, In x l -> J (did x) \/ d_del x = true.
+
+Lemma subtree_dead_sd_except : forall d, subtree_dead d <-> sd_except (fun _ => False) d.
+Proof.
+  intros d. split.
+  - intros H k l Hin Hd x Hx. right. eapply H; eassumption.
+  - intros H k l Hin Hd x Hx. destruct (H k l Hin Hd x Hx) as [[]|A]. exact A.
+Qed.
+
+Lemma sd_except_weaken : forall (J : id -> Prop) d, subtree_dead d -> sd_except J d.
+Proof. intros J d H k l Hin Hd x Hx. right. eapply H; eassumption. Qed.
+
+Lemma dead_parent0_obs : forall d k,
+  dead_parent (fun _ => false) d k =
+  match fst k with PId p => deadb (d_lists d) p && typb (d_lists d) p | _ => false end.
+Proof.
+  intros d k. unfold dead_parent, deadb, typb. destruct (fst k) as [n|p|]; try reflexivity.
+  destruct (find_item p (d_lists d)) as [[k0 x]|]; [|reflexivity].
+  cbn [negb]. rewrite andb_true_r. reflexivity.
+Qed.
+
+Lemma empty_subtree_dead : subtree_dead empty_doc.
+Proof. intros k l []. Qed.
+
+Theorem delete_item_sd_except : forall J j d, NoDupKeys d -> NoDupIds d ->
+  sd_except J d -> sd_except J (delete_item j d).
+Proof.
+  intros J j d Hnk Hni Hs k l' Hin Hdead x' Hx'.
+  pose proof (delete_item_tle j d) as Ht.
+  pose proof (delete_item_NoDupIds j d Hni) as Hni'.
+  destruct (Forall2_In_r _ _ _ _ _ _ Ht Hin) as ([k0 l0] & Hin0 & Hk0 & Hf).
+  cbn [fst snd] in Hk0, Hf. subst k0.
+  destruct (Forall2_In_r _ _ _ _ _ _ Hf Hx') as (x0 & Hx0 & Hop & Hdl).
+  assert (Eid : did x0 = did x') by (unfold did; rewrite Hop; reflexivity).
+  rewrite dead_parent0_obs in Hdead.
+  destruct (fst k) as [n|p|] eqn:Ek; try discriminate.
+  apply andb_true_iff in Hdead. destruct Hdead as [Hdp Htp].
+  rewrite <- (tle_typb _ _ p Ht) in Htp.
+  assert (CaseA : deadb (d_lists d) p = true -> J (did x') \/ d_del x' = true).
+  { intros Hd0. rewrite <- Eid.
+    destruct (Hs k l0 Hin0) with (x := x0) as [A|A].
+    - rewrite dead_parent0_obs, Ek, Hd0, Htp. reflexivity.
+    - exact Hx0.
+    - left. exact A.
+    - right. apply Hdl. exact A. }
+  apply (delete_item_spec j d p Hnk Hni) in Hdp. destruct Hdp as [Hd0|[Hlj Hb]]; [apply CaseA; exact Hd0|].
+  destruct (deadb (d_lists d) p) eqn:Hd0; [apply CaseA; reflexivity|].
+  right.
+  assert (Hlp : liveb (d_lists d) p = true).
+  { unfold typb in Htp. unfold deadb in Hd0. unfold liveb.
+    destruct (find_item p (d_lists d)) as [[kp px]|]; [|discriminate]. rewrite Hd0. reflexivity. }
+  assert (Hpar : parof (d_lists d) (did x0) = Some p).
+  { unfold parof. rewrite (find_item_In _ _ _ _ Hni Hin0 Hx0), Ek. reflexivity. }
+  assert (Hbx : below (d_lists d) j (did x0)) by (eapply below_step; eassumption).
+  rewrite (deadb_In _ _ _ _ Hni' Hin Hx'), <- Eid.
+  apply (delete_item_spec j d (did x0) Hnk Hni). right. split; assumption.
+Qed.
+
+Theorem delete_item_subtree_dead : forall j d, NoDupKeys d -> NoDupIds d ->
+  subtree_dead d -> subtree_dead (delete_item j d).
+Proof.
+  intros j d Hnk Hni H. apply subtree_dead_sd_except. apply delete_item_sd_except; try assumption.
+  apply subtree_dead_sd_except. exact H.
+Qed.
+Print Assumptions delete_item_subtree_dead.
+
+Definition gc_wf (d : doc) : Prop := subtree_dead d /\ NoDupKeys d /\ NoDupIds d.
+
+Lemma empty_gc_wf : gc_wf empty_doc.
+Proof. split; [apply empty_subtree_dead|split; [apply empty_NoDupKeys|apply empty_NoDupIds]]. Qed.
+
+Theorem delete_item_gc_wf : forall j d, gc_wf d -> gc_wf (delete_item j d).
+Proof.
+  intros j d (H1 & H2 & H3). split; [apply delete_item_subtree_dead; assumption|].
+  split; [apply delete_item_NoDupKeys; exact H2|apply delete_item_NoDupIds; exact H3].
+Qed.
+
+Theorem apply_ds_gc_wf : forall d s, gc_wf d -> gc_wf (apply_ds d s).
+Proof.
+  intros d s. unfold apply_ds. generalize (ds_points s). intros js. revert d.
+  induction js as [|j r IH]; intros d H; cbn [fold_left]; [exact H|].
+  apply IH. apply delete_item_gc_wf. exact H.
+Qed.
+
+(* --- integration --- *)
+Lemma set_list_In_self : forall k l ls, In (k, l) (set_list k l ls).
+Proof.
+  intros k l ls. induction ls as [|[k0 l0] r IH]; cbn [set_list]; [left; reflexivity|].
+  destruct (seqkey_eqb k0 k); [left; reflexivity|right; exact IH].
+Qed.
+
+Section IntegrateSd.
+  Variables (d : doc) (o : op) (key : seqkey).
+  Let x := mkditem (mkop (oid o) (oorigin o) (ororigin o) (fst key) (snd key) (ocont o))
+                   (match ocont o with UDeleted => true | _ => false end).
+  Let l := get_list key (d_lists d).
+  Let l' := yata_insert l x.
+  Let e1 := mkdoc (set_list key l' (d_lists d)) (d_gc d).
+  Hypothesis Hnk : NoDupKeys d.
+  Hypothesis Hni : NoDupIds d.
+  Hypothesis Hnot : integrated d (oid o) = false.
+  Hypothesis Hs : subtree_dead d.
+
+  Lemma x_not_dead_type : d_del x && is_type x = false.
+  Proof. unfold x, is_type. cbn [d_del d_op ocont]. destruct (ocont o); reflexivity. Qed.
+
+  Lemma in_l_in_d : forall y, In y l -> In (key, l) (d_lists d).
+  Proof.
+    intros y Hy. unfold l in *. destruct (get_list_In key (d_lists d)) as [A|[A _]]; [exact A|].
+    rewrite A in Hy. destruct Hy.
+  Qed.
+
+  Lemma e1_dead_parent : forall k, dead_parent (fun _ => false) e1 k = true ->
+    dead_parent (fun _ => false) d k = true.
+  Proof.
+    intros k. unfold dead_parent. destruct (fst k) as [n|p|]; try discriminate.
+    destruct (find_item p (d_lists e1)) as [[kp px]|] eqn:Ef; [|discriminate].
+    intros Hd. destruct (find_item_In_inv _ _ _ _ Ef) as (lp & Hin & Hpx & Ep).
+    unfold e1 in Hin. cbn [d_lists] in Hin. apply set_list_In in Hin.
+    assert (Hold : forall k0 l0, In (k0, l0) (d_lists d) -> In px l0 ->
+              match find_item p (d_lists d) with
+              | Some (_, x0) => d_del x0 && negb false && is_type x0
+              | None => false
+              end = true).
+    { intros k0 l0 H1 H2. rewrite <- Ep. rewrite (find_item_In _ _ _ _ Hni H1 H2). exact Hd. }
+    destruct Hin as [[_ El]|Hin].
+    - subst lp. unfold l' in Hpx. apply yata_insert_mem in Hpx. destruct Hpx as [Hpx|Hpx].
+      + subst px. cbn [negb] in Hd. rewrite andb_true_r in Hd. rewrite x_not_dead_type in Hd. discriminate.
+      + eapply Hold; [eapply in_l_in_d; exact Hpx|exact Hpx].
+    - eapply Hold; eassumption.
+  Qed.
+
+  Lemma e1_sd_except : sd_except (fun i => i = oid o) e1.
+  Proof.
+    intros k l0 Hin Hd y Hy. apply e1_dead_parent in Hd.
+    unfold e1 in Hin. cbn [d_lists] in Hin. apply set_list_In in Hin.
+    destruct Hin as [[Ek El]|Hin].
+    - subst k l0. unfold l' in Hy. apply yata_insert_mem in Hy. destruct Hy as [Hy|Hy].
+      + left. subst y. reflexivity.
+      + right. eapply Hs; [eapply in_l_in_d; exact Hy|exact Hd|exact Hy].
+    - right. eapply Hs; eassumption.
+  Qed.
+
+  Lemma e1_find_new : find_item (oid o) (d_lists e1) = Some (key, x).
+  Proof.
+    change (oid o) with (did x).
+    apply (find_item_In (d_lists e1) key l' x).
+    - apply (d1_NoDupIds d o key Hni Hnot).
+    - unfold e1. cbn [d_lists]. apply set_list_In_self.
+    - unfold l'. apply yata_insert_mem. left. reflexivity.
+  Qed.
+End IntegrateSd.
+
+(* the state between the insertion and the final parent-deleted check *)
+Definition mid (j : id) (e1 D : doc) : Prop :=
+  NoDupKeys D /\ NoDupIds D /\ sd_except (fun i => i = j) D /\ tle (d_lists e1) (d_lists D).
+
+Lemma mid_delete : forall j e1 D i, mid j e1 D -> mid j e1 (delete_item i D).
+Proof.
+  intros j e1 D i (H1 & H2 & H3 & H4). split; [apply delete_item_NoDupKeys; exact H1|].
+  split; [apply delete_item_NoDupIds; exact H2|].
+  split; [apply delete_item_sd_except; assumption|].
+  eapply tle_trans; [exact H4|apply delete_item_tle].
+Qed.
+
+Lemma dead_parent0_parent_deleted : forall d k,
+  dead_parent (fun _ => false) d k = true -> parent_deleted (fst k) d = true.
+Proof.
+  intros d k. unfold dead_parent, parent_deleted. destruct (fst k) as [n|p|]; try discriminate.
+  destruct (find_item p (d_lists d)) as [[k0 x]|]; [|discriminate].
+  destruct (d_del x); [reflexivity|discriminate].
+Qed.
+
+Theorem integrate_op_subtree_dead : forall d o,
+  NoDupKeys d -> NoDupIds d -> integrated d (oid o) = false ->
+  subtree_dead d -> subtree_dead (integrate_op d o).
+Proof.
+  intros d o Hnk Hni Hnot Hs. unfold integrate_op.
+  destruct (resolve_parent o d) as [key|]; [|exact Hs].
+  cbv zeta.
+  set (x := mkditem (mkop (oid o) (oorigin o) (ororigin o) (fst key) (snd key) (ocont o))
+                    (match ocont o with UDeleted => true | _ => false end)).
+  set (l' := yata_insert (get_list key (d_lists d)) x).
+  set (e1 := mkdoc (set_list key l' (d_lists d)) (d_gc d)).
+  assert (Hm1 : mid (oid o) e1 e1).
+  { split; [apply (d1_NoDupKeys d o key Hnk)|]. split; [apply (d1_NoDupIds d o key Hni Hnot)|].
+    split; [apply (e1_sd_except d o key Hni Hs)|apply tle_refl]. }
+  pose proof (e1_find_new d o key Hni Hnot) as Hfn. fold x l' e1 in Hfn.
+  match goal with
+  | |- subtree_dead (if _ then delete_item _ ?D else _) => assert (Hm : mid (oid o) e1 D)
+  end.
+  { repeat match goal with
+           | |- mid _ _ (match ?e with _ => _ end) => destruct e
+           | |- mid _ _ (delete_item _ _) => apply mid_delete
+           end; exact Hm1. }
+  match goal with
+  | |- subtree_dead (if _ then delete_item _ ?D else _) => set (D2 := D) in *
+  end.
+  destruct Hm as (Hk2 & Hi2 & Hs2 & Ht2).
+  destruct (parent_deleted (fst key) D2) eqn:Epd.
+  - pose proof (delete_item_sd_except _ (oid o) D2 Hk2 Hi2 Hs2) as Hs3.
+    intros k l0 Hin Hd y Hy. destruct (Hs3 k l0 Hin Hd y Hy) as [A|A]; [|exact A].
+    eapply delete_item_kills; eassumption.
+  - intros k l0 Hin Hd y Hy. destruct (Hs2 k l0 Hin Hd y Hy) as [A|A]; [|exact A].
+    exfalso.
+    pose proof (find_item_In _ _ _ _ Hi2 Hin Hy) as Hf. rewrite A in Hf.
+    destruct (tle_find_fwd _ _ _ _ _ Ht2 Hfn) as (x' & Hf' & _).
+    rewrite Hf in Hf'. inversion Hf'; subst k.
+    apply dead_parent0_parent_deleted in Hd. congruence.
+Qed.
+Print Assumptions integrate_op_subtree_dead.
+
+Theorem integrate_x_gc_wf : forall d x, gc_wf d -> integrated d (xid x) = false -> gc_wf (integrate_x d x).
+Proof.
+  intros d [o|i] (H1 & H2 & H3) Hn; cbn [integrate_x xid] in *.
+  - split; [apply integrate_op_subtree_dead; assumption|].
+    split; [apply integrate_op_NoDupKeys; assumption|apply integrate_op_NoDupIds; assumption].
+  - split; [exact H1|split; assumption].
+Qed.
+
+Theorem deliver_gc_wf : forall d w, gc_wf d -> gc_wf (fst (deliver d w)).
+Proof. intros d w. apply deliver_inv. apply integrate_x_gc_wf. Qed.
+
+Theorem render_gc_wf : forall pool ds, gc_wf (fst (render pool ds)).
+Proof.
+  intros pool ds. unfold render.
+  pose proof (deliver_gc_wf empty_doc pool empty_gc_wf) as H.
+  destruct (deliver empty_doc pool) as [d st]. cbn [fst] in *. apply apply_ds_gc_wf. exact H.
+Qed.
+Print Assumptions render_gc_wf.
+
+Theorem later_gc_wf : forall d d', later d d' -> gc_wf d -> gc_wf d'.
+Proof.
+  intros d d' H. induction H as [d|d d' w _ IH|d d' s _ IH]; intros Hw.
+  - exact Hw.
+  - apply deliver_gc_wf. apply IH. exact Hw.
+  - apply apply_ds_gc_wf. apply IH. exact Hw.
+Qed.
+
+(* in every state reachable from the empty document, full GC (both levels) is invisible *)
+Theorem gc_invisible_reachable : forall keep d, later empty_doc d -> vis_eq (gc_doc keep d) d.
+Proof.
+  intros keep d H. apply gc_doc_vis_eq. exact (proj1 (later_gc_wf _ _ H empty_gc_wf)).
+Qed.
+Print Assumptions gc_invisible_reachable.
+
+Theorem gc_invisible_render : forall keep pool ds,
+  vis_eq (gc_doc keep (fst (render pool ds))) (fst (render pool ds)).
+Proof. intros keep pool ds. apply gc_doc_vis_eq. exact (proj1 (render_gc_wf pool ds)). Qed.
+Print Assumptions gc_invisible_render.
+
+(* ====================================================================== *)
+(* 10. the safety hypothesis cannot simply be dropped                      *)
+(* ====================================================================== *)
+(* A deleted map [T]; [o1] arrives below it (lands in list (T,[7]) without GC, in d_gc with GC);
+   then an ill-formed [o2] whose origin is [o1] but which names another parent: its resolved map
+   key is inherited from [o1]'s list without GC and is its own with GC.  (The decoder never produces
+   such an op: an item with an origin carries no parent.) *)
+Definition cex_T : ditem := mkditem (mkop (mkid 0 0) None None (PNamed [1]) None (UType TMap)) true.
+Definition cex_gd : doc := mkdoc [((PNamed [1], None), [cex_T])] [].
+Definition cex_o1 : op := mkop (mkid 1 0) None None (PId (mkid 0 0)) (Some [7]) (UString 65).
+Definition cex_o2 : op := mkop (mkid 1 1) (Some (mkid 1 0)) None (PNamed [2]) (Some [9]) (UString 66).
+Definition cex_w : list xop := [XItem cex_o1; XItem cex_o2].
+
+Example gc_replica_needs_safety :
+  gc_wf cex_gd /\
+  ~ vis_eq (fst (deliver (gc_contents (fun _ => false) cex_gd) cex_w)) (fst (deliver cex_gd cex_w)).
+Proof.
+  split.
+  - split; [|split].
+    + intros k l [E|[]] Hd x Hx. inversion E; subst. vm_compute in Hd. discriminate.
+    + unfold NoDupKeys. cbn. constructor; [intros []|constructor].
+    + unfold NoDupIds. cbn. constructor; [intros []|constructor].
+  - intros [H _]. specialize (H (PNamed [2], Some [7])). vm_compute in H. discriminate.
+Qed.
+
+(* non-vacuity: level (b) really drops the list below [T] and moves its id to d_gc *)
+Example gc_doc_collects :
+  gc_doc (fun _ => false) (fst (deliver cex_gd [XItem cex_o1])) =
+  mkdoc [((PNamed [1], None),
+          [mkditem (mkop (mkid 0 0) None None (PNamed [1]) None UDeleted) true])]
+        [mkid 1 0].
+Proof. vm_compute. reflexivity. Qed.
+
+(* ====================================================================== *)
+(* 11. a checkable form of the safety hypothesis, along a run              *)
+(* ====================================================================== *)
+Definition gc_safeb (keep : id -> bool) (d : doc) (x : xop) : bool :=
+  match x with
+  | XItem o => match resolve_parent o d with
+               | Some key => negb (dead_parent keep d key)
+               | None => true
+               end
+  | XGC _ => true
+  end.
+
+Lemma gc_safeb_spec : forall keep d x, gc_safeb keep d x = true <-> gc_safe keep d x.
+Proof.
+  intros keep d [o|i]; cbn [gc_safeb gc_safe]; [|tauto]. unfold gc_safe_op.
+  destruct (resolve_parent o d) as [key|].
+  - rewrite negb_true_iff. split.
+    + intros H k E. inversion E; subst. exact H.
+    + intros H. apply H. reflexivity.
+  - split; [intros _ k E; discriminate|reflexivity].
+Qed.
+
+Fixpoint safe_runb (keep : id -> bool) (d : doc) (xs : list xop) : bool :=
+  match xs with
+  | [] => true
+  | x :: r => gc_safeb keep d x && safe_runb keep (integrate_x d x) r
+  end.
+
+Theorem gc_commutes_with_run_drel : forall keep xs d1 d2,
+  drel keep d1 d2 -> safe_runb keep d2 xs = true ->
+  drel keep (fold_left integrate_x xs d1) (fold_left integrate_x xs d2).
+Proof.
+  intros keep xs. induction xs as [|x r IH]; intros d1 d2 Hd Hs; cbn [fold_left safe_runb] in *; [exact Hd|].
+  apply andb_true_iff in Hs. destruct Hs as [Hx Hr].
+  apply IH; [|exact Hr]. apply integrate_x_drel; [exact Hd|apply gc_safeb_spec; exact Hx].
+Qed.
+
+Theorem gc_commutes_with_run : forall keep xs d, safe_runb keep d xs = true ->
+  vis_eq (fold_left integrate_x xs (gc_contents keep d)) (fold_left integrate_x xs d) /\
+  vis_eq (gc_contents keep (fold_left integrate_x xs d)) (fold_left integrate_x xs (gc_contents keep d)).
+Proof.
+  intros keep xs d Hs.
+  assert (A : vis_eq (fold_left integrate_x xs (gc_contents keep d)) (fold_left integrate_x xs d)).
+  { apply (drel_vis_eq keep). apply gc_commutes_with_run_drel; [apply drel_gc|exact Hs]. }
+  split; [exact A|]. eapply vis_eq_trans; [apply gc_contents_vis_eq|apply vis_eq_sym; exact A].
+Qed.
+Print Assumptions gc_commutes_with_run.
